@@ -59,12 +59,52 @@ package log
 // it is established only by applyValueLimits, so a stored attribute satisfies it only if it was limited on the way in.
 //@ spec limitedV(limit int, v log.Value) bool
 //@ spec limitedKV(limit int, kv log.KeyValue) bool = limitedV(limit, kv.Value)
+// accessors and constructors of log.Value (module log): deterministic functions of the value (assumed); AsSlice/AsMap return
+// the value's own storage (same slice for the same value)
+//@ extern go.opentelemetry.io/otel/log Value.Kind() (k log.Kind)
+//@   pure
+//@   trusted "accessor of module log"
+//@ extern go.opentelemetry.io/otel/log Value.AsString() (s string)
+//@   pure
+//@   trusted "accessor of module log"
+//@ extern go.opentelemetry.io/otel/log Value.AsSlice() (sl []log.Value)
+//@   pure
+//@   trusted "accessor of module log"
+//@ extern go.opentelemetry.io/otel/log Value.AsMap() (kvs []log.KeyValue)
+//@   pure
+//@   trusted "accessor of module log"
+//@ extern go.opentelemetry.io/otel/log StringValue(v string) (r log.Value)
+//@   pure
+//@   trusted "constructor of module log"
+//@ extern go.opentelemetry.io/otel/log SliceValue(vs []log.Value) (r log.Value)
+//@   trusted "constructor of module log"
+//@   modifies
+//@ extern go.opentelemetry.io/otel/log MapValue(kvs []log.KeyValue) (r log.Value)
+//@   trusted "constructor of module log"
+//@   modifies
+
+// applyValueLimits (verified, except that limitedV of the RESULT is its definition: `assumes`): a string longer than the limit is
+// replaced by truncate(limit, s); every element of a slice value is replaced by its limited version; a map value is de-duplicated,
+// the duplicates are counted as dropped, and every entry is replaced by its limited version; other kinds pass through unchanged
 //@ func (r *Record) applyValueLimits(val log.Value) (out log.Value)
-//@   prop -
-//@   trusted "recursion over log.Value trees through the accessors of module log; establishes the abstract predicate limitedV"
+//@   prop C17
+//@   overflow assumed
+//@   unchecked frame,no-panic the slices returned by log.Value accessors (module log) are rewritten in place; accessors are unknown calls
 //@   requires r != nil
 //@   modifies r.dropped
-//@   ensures limitedV(r.attributeValueLengthLimit, out) && r.dropped >= old(r.dropped)
+//@   assumes limitedV(r.attributeValueLengthLimit, out)
+//@   ensures r.dropped >= old(r.dropped)
+//@   assert@call truncate#1 : $arg0 == r.attributeValueLengthLimit && $arg1 == s && len(s) > r.attributeValueLengthLimit
+//@   assert@call Record.applyValueLimits#1 : $arg1 == sl[i]
+//@   assert@store elem#1 : limitedV(r.attributeValueLengthLimit, $val)
+//@   assert@call dedup#1 : true
+//@   assert@call Record.addDropped#1 : $arg1 == dropped
+//@   assert@call Record.applyAttrLimits#1 : $arg1 == kvs[i]
+//@   assert@store elem#2 : limitedKV(r.attributeValueLengthLimit, $val)
+//@   assert@call SliceValue#1 : $arg0 === sl && (forall j in 0 .. len(sl) : limitedV(r.attributeValueLengthLimit, sl[j]))
+//@   assert@call MapValue#1 : $arg0 === kvs && (forall j in 0 .. len(kvs) : limitedKV(r.attributeValueLengthLimit, kvs[j]))
+//@   loop#1 invariant r.dropped >= old(r.dropped) && r.attributeValueLengthLimit == old(r.attributeValueLengthLimit) && (forall j in 0 .. $k : limitedV(r.attributeValueLengthLimit, sl[j]))
+//@   loop#2 invariant r.dropped >= old(r.dropped) && r.attributeValueLengthLimit == old(r.attributeValueLengthLimit) && (forall j in 0 .. $k : limitedKV(r.attributeValueLengthLimit, kvs[j]))
 //@ func (r *Record) applyAttrLimits(attr log.KeyValue) (out log.KeyValue)
 //@   requires r != nil
 //@   modifies r.dropped
